@@ -811,8 +811,14 @@ def oracle(sc, obs):
                 what = "trailers"
             elif ob["n_resp"] != 1:
                 what = "response_count"
+            # context for one known cause of a silently truncated answer: a streamed request whose close-delimited
+            # HTTP/1 answer starts before the request has ended at mitmproxy (Http1Client.send judges the REQUEST's
+            # end by the RESPONSE's read-until-EOF framing and closes the upstream connection)
+            trunc_ctx = bool(okind == "h1" and rsp.get("framing") == "close" and
+                             any(p["hook"] == "requestheaders" and p.get("stream") and p["s"] == k for p in sc.get("policy", [])))
             if what:
-                add("client_response_wrong", {"what": what, "origin": okind},
+                add("client_response_wrong", {"what": what, "origin": okind,
+                                              "streamed_request_close_delimited_answer": trunc_ctx},
                     f"stream {k}: client got {what} different from the origin's answer for this marker "
                     f"(status {st!r} vs {exp_status!r}, body {len(ob['data'])} vs {len(exp_body)} bytes)")
             else:
@@ -825,7 +831,10 @@ def oracle(sc, obs):
                 if not f.request.stream and f.request.raw_content is not None and f.request.raw_content != body_of(chunks_sent):
                     add("flow_content_wrong", {"what": "request_body"}, f"flow of stream {k}: request body differs from the stream's")
                 if not f.response.stream and f.response.raw_content is not None and f.response.raw_content != body_of(rsp.get("chunks", [])):
-                    add("flow_content_wrong", {"what": "response_body"}, f"flow of stream {k}: response body differs from the origin's answer")
+                    add("flow_content_wrong", {"what": "response_body", "origin": okind,
+                                               "streamed_request_close_delimited_answer": trunc_ctx},
+                        f"flow of stream {k}: response body differs from the origin's answer "
+                        f"({len(f.response.raw_content)} vs {len(body_of(rsp.get('chunks', [])))} bytes)")
                 if sent["trailers"] and okind == "h2":
                     ft = _xfields(f.request.trailers.fields if f.request.trailers else [])
                     if ft != _xfields(HP.hdrs(s["trailers"])):
